@@ -130,6 +130,8 @@ pub struct Gate {
     pub open: bool,
     pub waker: Option<Waker>,
     pub label: GateLabel,
+    /// opened at creation although the world is gated (ping-storm mode): fires, and is logged, when first polled
+    pub auto: bool,
 }
 #[derive(Clone, Debug, PartialEq, Default)]
 pub enum GateLabel {
@@ -233,6 +235,7 @@ pub struct World {
     pub gates: Vec<Gate>,
     /// eager: every gate opens the moment it is created
     pub eager: bool,
+    pub ping_storm: bool,
     pub interactions: usize,
     /// interactions since this life's state machine was built, and whether it exceeded RUNAWAY_INTERACTIONS
     pub life_interactions: usize,
@@ -267,6 +270,7 @@ impl World {
             interactions: 0,
             life_interactions: 0,
             runaway: false,
+            ping_storm: false,
             crash_at: None,
             crashed: false,
             storage,
@@ -315,7 +319,16 @@ impl World {
     }
     fn new_gate(&mut self, label: GateLabel) -> usize {
         let id = self.gates.len();
-        self.gates.push(Gate { open: self.eager, waker: None, label });
+        // ping-storm mode (scheduled driver, reboot wait): the ping timers - every timer but the 30-minute reboot
+        // re-check - are due the moment they are armed, as with a policy whose next ping time is always "now"
+        let auto = !self.eager
+            && self.ping_storm
+            && match &label {
+                GateLabel::TimerUntil(_) => true,
+                GateLabel::TimerFor(_, d) => *d != Duration::from_secs(30 * 60),
+                _ => false,
+            };
+        self.gates.push(Gate { open: self.eager || auto, waker: None, label, auto });
         id
     }
     pub fn pending_gates(&self) -> Vec<(usize, GateLabel)> {
@@ -375,7 +388,7 @@ impl Future for GateFut {
             return Poll::Pending;
         }
         if g.gates[id].open {
-            if g.eager && !self.fired_logged {
+            if (g.eager || g.gates[id].auto) && !self.fired_logged {
                 // eager gates "fire" when first polled
                 let label = g.gates[id].label.clone();
                 match label {
